@@ -31,6 +31,10 @@ class World(ControlWorld):
         if prop == "C15":
             # the C15 'session' family: the size is read and assigned through control commands
             clause = "C15.reports" if "pool-size" in msg or "pool_size" in msg else "C15.no_admission_above"
+        elif prop == "C09":
+            # the C09 'session' family: requests with rejection causes (num_concurrent < 1, duplicate names, a function that is
+            # no coroutine function, a locked pool) sent as commands must be refused / accepted exactly like the direct calls
+            clause = "C09.via_command"
         elif prop == "C06":
             # the C06 'session' family: cancel(ids) issued as a command must reach exactly the named tasks of *this* pool
             clause = "C06.via_command"
